@@ -856,3 +856,10 @@ impl Mapper {
     format!("{:?}", self.state)
   }
 }
+
+// Verification hook (no behaviour change): the key classification of this
+// module, so that it can be tabulated for every key code.
+#[cfg(ellbur_totalmapper_verif)]
+pub fn verif_is_action_key(k: &KeyCode) -> bool {
+  is_action_key(k)
+}
